@@ -454,6 +454,22 @@ def leg_specs(sym):
             else:
                 big = tuple(10 ** 6 if j == k else x for j, x in enumerate(c0))
                 tspecs.append((f"u1-large[{k}]", (big, c0), 2))
+        # one non-canonical charge among three canonical ones, from several base charges and at every argument position, so
+        # that for product groups it also lands strictly inside the sorted sector list (seeded C19_A3: only the extremal
+        # sectors were passed through the fusion rule)
+        if len(C) >= 4:
+            bases = C[::max(1, len(C) // 4)][:4]
+            for k, mod in enumerate(mods):
+                if not mod:
+                    continue
+                for b in bases:
+                    rest = [c for c in C if c != b]
+                    others = [rest[0], rest[len(rest) // 2], rest[-1]]
+                    for bad_v in (mod, -1):
+                        bad = tuple(bad_v if j == k else x for j, x in enumerate(b))
+                        for pos in range(4):
+                            targ = tuple(others[:pos]) + (bad,) + tuple(others[pos:])
+                            tspecs.append((f"outside-among[{k}]:{b}:{bad_v}@{pos}", targ, 4))
     dims = (2, 3, 4, 5)
     dspecs = {}
     for _, _, n in tspecs:
